@@ -21,7 +21,8 @@ EXPLANATION = (
     "reachable in the chordal module (C05.R2 re-run), so the tree is a function of the pattern."
     " (R5) connect_graph links every column without sub-diagonal entry to its successor with a nonzero structural entry (set_entry discards new zeros), for columns 0..n-1, and find_graph returns the connected pattern."
     " (R6) clique-graph merge: the removed clique is deleted from the adjacency table and purged from every remaining adjacency set; (R7) every test that decodes the signed supernode array of pothen_sun is `< 0` (0 is a valid representative), the unassigned test is `== -1`; (R8) clique_tree_from_graph recomputes the edge weights as intersection sizes unconditionally before Kruskal, then parents, post-order, split."
-    " (R9) the generic merge loop stops when one clique is left, whatever the strategy; connect_graph takes no copy of the index arrays it mutates.")
+    " (R9) the generic merge loop stops when one clique is left, whatever the strategy; connect_graph takes no copy of the index arrays it mutates."
+    " R9 also: merge_cliques calls post_process_merge on every return. (R10) set_entry keeps columns sorted (insertion at the partition point), which get_entry's binary search on the clique-graph edge matrix relies on (C16.R14 re-run).")
 ASSUMPTIONS = ['rustc MIR construction and trait resolution are correct',
                'sortperm_rev / permute / findnz mean what their names say (C16 territory)']
 
@@ -303,6 +304,11 @@ def merge_loop(rep, F, tag):
                 continue
             R.check((ret[0] == 's') == (one[0] == 1), 'single-clique-stops|%d%s' % (one[0], tag), 'with n_cliques == 1 being %s the loop %s' % (bool(one[0]), 'continues' if ret[0] == 'cut' else 'stops'), f.loc())
         R.check(n >= 2, 'passes' + tag, 'only %d merge-loop passes analysed' % n, f.loc())
+        # whichever way the loop is left, the strategy's post-processing runs (for the clique-graph strategy it is what rebuilds the tree)
+        for val, ret, ev, tr in Walker(f, cut_loops=True).leaves():
+            if ret[0] == 's':
+                R.check(any(e[0] == 'call' and e[1] == 'post_process_merge' for e in ev), 'post-process-on-every-exit' + tag,
+                        'merge_cliques returns under %s without calling post_process_merge' % {k[:40]: v for k, v in val.items()}, f.loc())
         g = F.one(name='connect_graph')
         snap = [canon(g.sym_operand(c.args[0])) for c in g.calls if c.callee.name in ('clone', 'to_vec', 'to_owned', 'clone_from') and c.args and canon(g.sym_operand(c.args[0])) in ('arg1.colptr', 'arg1.rowval')]
         R.check(not snap, 'no-stale-snapshot' + tag,
@@ -322,6 +328,9 @@ def run(ctx, rep, tier):
         representative_encoding(rep, F, tag)
         tree_from_graph(rep, F, tag)
         merge_loop(rep, F, tag)
+        # the clique-graph edge matrix is edited with set_entry and queried with get_entry (binary search): columns must stay sorted (C16.R14 re-run)
+        from . import c16
+        c16.entry_access(rep, F, tag, 'C17.R10')
     from . import c05, c04
     for cfg in CONFIGS:
         c05.hash_order(c04._Ren(rep, 'C05.R2', 'C17.R4'), ctx.facts(cfg), ctx.cg(cfg), '[%s]' % cfg)
